@@ -14,6 +14,8 @@ typeinv mutateOp by newMutateOp: !isnil(self.operation)
 typeinv collectOp by newCollectOp: !isnil(self.operation)
 typeinv computeHashVisitor by newComputeHashVisitor: !isnil(self.hasher) && !isnil(self.cache)
 typeinv MembershipProof by NewMembershipProof: !isnil(self.hasher)
+immutable MembershipProof.AuditPath, MembershipProof.Index, MembershipProof.Version, MembershipProof.hasher by NewMembershipProof
+immutable IncrementalProof.AuditPath, IncrementalProof.StartVersion, IncrementalProof.EndVersion, IncrementalProof.hasher by NewIncrementalProof
 typeinv IncrementalProof by NewIncrementalProof: !isnil(self.hasher)
 
 // ---- positions --------------------------------------------------------------
